@@ -49,7 +49,7 @@ var srvStub = []string{"file-server implementation: ScriptFS (scripted SrvReqOps
 
 func init() {
 	reg(&propCfg{ID: "C03", QuickRuns: 12000, QuickSecs: 40, ThoroughRuns: 300000, ThoroughSecs: 780, Chunk: 50,
-		RuleNote:   "C03: 1..3 connections, per connection 1..16 (thorough 1..64) pipelined requests of 9 types on 1..64 tags that are reused as soon as a reply arrives; per request the script answers now / parked until released / after returning / from another goroutine / with an Rerror; stratum 'double-answer' also answers twice with different content. Held requests are released one per phase in scheduler-chosen order. Every 16th run is the stratum 'tversion-mid-session': 1..16 Tstat requests (a drawn share parked in the implementation) with a Tversion behind them in the same or the next segment; once the server is idle again the same tags are used for new requests, each of which must get exactly one Rstat.",
+		RuleNote:   "C03: 1..3 connections, per connection 1..16 (thorough 1..64) pipelined requests of 9 types on 1..64 tags that are reused as soon as a reply arrives; per request the script answers now / parked until released / after returning / from another goroutine / with an Rerror; stratum 'double-answer' also answers twice with different content. Held requests are released one per phase in scheduler-chosen order. Every 16th run is the stratum 'tversion-mid-session': 1..16 Tstat requests (a drawn share parked in the implementation) with a Tversion behind them in the same or the next segment; once the server is idle again the same tags are used for new requests, each of which must get exactly one Rstat. The cancelled-neighbours stratum issues one to three Tflush per cancelled request.",
 		Real:       srvReal, Stub: srvStub,
 		ProbeNames: []string{"multi-message-segment", "tag-reused-after-reply", "3+-held-simultaneously", "release-order-differs-from-arrival", "completion-order-differs-from-arrival", "8+-requests-held-on-a-connection"}})
 }
@@ -70,7 +70,7 @@ func init() {
 
 func init() {
 	reg(&propCfg{ID: "C11", QuickRuns: 12000, QuickSecs: 40, ThoroughRuns: 300000, ThoroughSecs: 780, Chunk: 50,
-		RuleNote:   "C11: a victim and a bystander connection run C03-style pipelined histories (fids attached, walked, opened, created, clunked, removed; up to 4 victim requests parked in the implementation); the victim's client end is closed, reset, or closed in the middle of a frame at a drawn step / at the first quiescence with requests parked / when idle; parked requests are released afterwards in scheduler-chosen order; then the bystander and a fresh connection are probed. A quarter of the runs cancel parked victim requests through FlushOp before the cut; cut mode 'half-close': the victim stops reading after the set-up (24-byte transport, the server's writer blocks) and then ends only its sending direction. Every 12th run is the stratum 'tversion-then-disconnect': 1..8 requests (a drawn share parked) with a Tversion behind them, then the victim leaves; ConnClosed once, every fid shown destroyed exactly once, no goroutine left. The Ufs stratum reads the directory from offset 0 three times through one fid.",
+		RuleNote:   "C11: a victim and a bystander connection run C03-style pipelined histories (fids attached, walked, opened, created, clunked, removed; up to 4 victim requests parked in the implementation); the victim's client end is closed, reset, or closed in the middle of a frame at a drawn step / at the first quiescence with requests parked / when idle; parked requests are released afterwards in scheduler-chosen order; then the bystander and a fresh connection are probed. A quarter of the runs cancel parked victim requests through FlushOp before the cut; cut mode 'half-close': the victim stops reading after the set-up (24-byte transport, the server's writer blocks) and then ends only its sending direction. Every 12th run is the stratum 'tversion-then-disconnect': 1..8 requests (a drawn share parked) with a Tversion behind them, then the victim leaves; ConnClosed once, every fid shown destroyed exactly once, no goroutine left. The Ufs stratum reads the directory from offset 0 three times through one fid. The 'tversion-then-disconnect' stratum starts with a Twalk to a new fid parked in the implementation and a Tstat naming that new fid; the Ufs stratum ends with a Topen and a Tversion written together.",
 		Real:       srvReal, Stub: srvStub,
 		ProbeNames: []string{"cut-with-requests-parked", "3+-held-simultaneously", "release-order-differs-from-arrival"}})
 }
@@ -95,14 +95,14 @@ var clntStub = []string{"9P server: scripted peer with an independent codec, ans
 
 func init() {
 	reg(&propCfg{ID: "C09", QuickRuns: 2000, QuickSecs: 40, ThoroughRuns: 200000, ThoroughSecs: 780, Chunk: 25, WatchdogSecs: 900,
-		RuleNote:   "C09: stratum 'concurrent': 1..16 (thorough ..64) caller goroutines with 2..8 calls each (Read, Write, Stat, Walk, Open, Clunk, reads answered with Rerror text+number, reads answered with a reply of the wrong type, pipelined Tag-interface reads sharing a tag); the scripted server withholds replies with drawn probability and releases them one per phase in scheduler-chosen order, replies segmented by policy; reply content is a function of the request. Stratum 'long-run' (every 50th run): 10 000 (thorough 70 000 > 65 535) consecutive calls over one connection. Stratum 'long-run-wide' (quick: one run, thorough: every 800th): 100 000 calls, 64 at a time in flight through ReqAlloc/Rpcnb/ReqFree, so that 48 of every 64 request slots overflow the client's 16-slot cache and their tags pass through the tag pool (more than 65 535 pool round trips). Callers also use the path helpers FStat / FOpen / FWalk, with names the scripted server refuses (Rerror) or walks only partly; pipelined Tag reads hand their completions to a consumer channel of capacity n, 0 or 1 and must complete in issue order (c4-tag-order). Op 'rpcnb': two non-blocking requests (ReqAlloc, caller-owned completion channel, Rpcnb, ReqFree), the second answered normally, with Rerror or with the wrong reply type, the first freed while the second is outstanding. A share of the pipelined Tag reads is refused or answered with the wrong type and must complete with an error.",
+		RuleNote:   "C09: stratum 'concurrent': 1..16 (thorough ..64) caller goroutines with 2..8 calls each (Read, Write, Stat, Walk, Open, Clunk, reads answered with Rerror text+number, reads answered with a reply of the wrong type, pipelined Tag-interface reads sharing a tag); the scripted server withholds replies with drawn probability and releases them one per phase in scheduler-chosen order, replies segmented by policy; reply content is a function of the request. Stratum 'long-run' (every 50th run): 10 000 (thorough 70 000 > 65 535) consecutive calls over one connection. Stratum 'long-run-wide' (quick: one run, thorough: every 800th): 100 000 calls, 64 at a time in flight through ReqAlloc/Rpcnb/ReqFree, so that 48 of every 64 request slots overflow the client's 16-slot cache and their tags pass through the tag pool (more than 65 535 pool round trips). Callers also use the path helpers FStat / FOpen / FWalk, with names the scripted server refuses (Rerror) or walks only partly; pipelined Tag reads hand their completions to a consumer channel of capacity n, 0 or 1 and must complete in issue order (c4-tag-order). Op 'rpcnb': two non-blocking requests (ReqAlloc, caller-owned completion channel, Rpcnb, ReqFree), the second answered normally, with Rerror or with the wrong reply type, the first freed while the second is outstanding. A share of the pipelined Tag reads is refused or answered with the wrong type and must complete with an error. Pipelines under one Tag may start with a Tstat before the Treads (several request kinds under one tag complete in issue order).",
 		Real:       clntReal, Stub: clntStub,
 		ProbeNames: []string{"8+-calls-outstanding", "32+-calls-outstanding", "replies-delivered-out-of-order", "tag-value-reused-after-free", "5+-replies-withheld"}})
 }
 
 func init() {
 	note := "C04/C05 share one harness: histories of 10..40 (thorough ..200) requests over fid numbers {0..5,7,NOFID,NOFID-1} on 1..2 connections using the same numbers, all message types incl. walks that are full, partial, failing, zero-name, in place or onto a used newfid, attach with/without afid, open modes incl. OTRUNC/ORCLOSE, create perms incl. DMDIR and the special-file bits, read/write counts at 0, 1, msize-25, msize-24, msize-23, 2^31, 2^32-24, 2^32-11, 2^32-1, both dialects, with and without AuthOps; the generator runs the reference model forward to keep histories in interesting states. Requests are issued one at a time (the next the moment the previous reply is readable, while the previous worker may still be running); every reply, every implementation call (operation, fid object identity, user, arguments) and every FidDestroy is compared with the reference fid-table model, then every fid number is probed."
-	reg(&propCfg{ID: "C04", QuickRuns: 10000, QuickSecs: 40, ThoroughRuns: 200000, ThoroughSecs: 780, Chunk: 50, RuleNote: note + " C04 evaluates rules a*: validity, refusal texts, forwarding of requests naming invalid fids, user binding, FidDestroy exactly once and not after the invalidating reply, final probes. 8 % of the forwarded requests are cancelled while the implementation holds them (Tflush, FlushOp calling req.Flush()): no reply, model restored, history goes on. 30 % of the forwarded Twrites are parked in the implementation while a filler request arrives (arguments and payload must stay intact). 60 % of C04 histories end with an epilogue: on some connections a parked request is cancelled by Tflush (FlushOp), then the client leaves, and every fid object ever shown to the implementation must have been reported destroyed exactly once. Every 10th C04 run is the stratum 'ufs-fid-table': 10..40 (thorough ..150) requests of all kinds over six fid numbers against the real Ufs (including hard-link creates that name a source fid), validity model driven by the replies, Tstat probes at the end. Every 5th run of C04 is the stratum 'concurrent-batch': after a prologue, 2..8 (thorough ..30) rounds each send 2..4 requests (Tattach, Twalk to a new or the same fid with 0/1 names, Tclunk, Tremove, Tstat) that mostly meet on one of four fid numbers, in one segment or back to back, the implementation holding a drawn share of them until released in drawn order; the replies, the implementation calls per request and the validity of every number afterwards (probed with Tstat) must be explained by some order of the batch applied to the fid-table model (all orders tried; a request overlapping an invalidation or an unanswered bind of its fid may go either way), and at the end every fid object shown to the implementation is reported destroyed exactly once unless still valid.",
+	reg(&propCfg{ID: "C04", QuickRuns: 10000, QuickSecs: 40, ThoroughRuns: 200000, ThoroughSecs: 780, Chunk: 50, RuleNote: note + " C04 evaluates rules a*: validity, refusal texts, forwarding of requests naming invalid fids, user binding, FidDestroy exactly once and not after the invalidating reply, final probes. The server offers msize, 2 x msize or 64 KiB while the client asks for msize. 8 % of the forwarded requests are cancelled while the implementation holds them (Tflush, FlushOp calling req.Flush()): no reply, model restored, history goes on. 30 % of the forwarded Twrites are parked in the implementation while a filler request arrives (arguments and payload must stay intact). 60 % of C04 histories end with an epilogue: on some connections a parked request is cancelled by Tflush (FlushOp), then the client leaves, and every fid object ever shown to the implementation must have been reported destroyed exactly once. Every 10th C04 run is the stratum 'ufs-fid-table': 10..40 (thorough ..150) requests of all kinds over six fid numbers against the real Ufs (including hard-link creates that name a source fid), validity model driven by the replies, Tstat probes at the end. Every 5th run of C04 is the stratum 'concurrent-batch': after a prologue, 2..8 (thorough ..30) rounds each send 2..4 requests (Tattach, Twalk to a new or the same fid with 0/1 names, Tclunk, Tremove, Tstat) that mostly meet on one of four fid numbers, in one segment or back to back, the implementation holding a drawn share of them until released in drawn order; the replies, the implementation calls per request and the validity of every number afterwards (probed with Tstat) must be explained by some order of the batch applied to the fid-table model (all orders tried; a request overlapping an invalidation or an unanswered bind of its fid may go either way), and at the end every fid object shown to the implementation is reported destroyed exactly once unless still valid.",
 		Real: srvReal, Stub: srvStub, ProbeNames: []string{"refused-before-forward", "fid-invalidated", "forwarded-walk", "forwarded-attach"}})
 	reg(&propCfg{ID: "C05", QuickRuns: 8000, QuickSecs: 40, ThoroughRuns: 200000, ThoroughSecs: 780, Chunk: 50, RuleNote: note + " C05 evaluates rules b*: refusal before forwarding for every protocol rule, forwarded exactly once with the fid object, user and arguments named, reply equal to what the implementation produced, authentication gate.",
 		Real: srvReal, Stub: srvStub, ProbeNames: []string{"refused-before-forward", "forwarded-read", "forwarded-write", "forwarded-create", "forwarded-open"}})
@@ -113,7 +113,7 @@ var ufsStub = []string{"transport: simulated net.Conn (segmentation by policy)",
 
 func init() {
 	reg(&propCfg{ID: "C14", QuickRuns: 3000, QuickSecs: 40, ThoroughRuns: 60000, ThoroughSecs: 780, Chunk: 20,
-		RuleNote:   "C14: 1..4 (thorough ..6) caller goroutines, each with 1..3 files of length 0, 1, iounit-1, iounit, iounit+1, 2*iounit+-1, 3*iounit+7 or random up to 5 iounits (seeded content), iounit 128..65512 further limited by the server's msize, both dialects; 2..8 operations per file drawn from Clnt.Read/Write, File.Read/Write/ReadAt/WriteAt/Readn/Written and a full sequential read, offsets at 0, EOF, EOF+1, beyond, iounit multiples -1, counts 0, 1, iounit-1..iounit+1, 2 and 3 iounits; every result is compared with a byte-slice model and, after every write, the model with os.ReadFile. Every 5th run injects OS errors into Ufs (10-80 per mille, at most 5): a call running while an error fired may fail, but what it reports as written must be in the file and nothing else may change. Read offsets include 2^32, 2^32+1, 2^40. Further opens of a file use OREAD, ORDWR, OWRITE|OTRUNC or ORDWR|OTRUNC.",
+		RuleNote:   "C14: 1..4 (thorough ..6) caller goroutines, each with 1..3 files of length 0, 1, iounit-1, iounit, iounit+1, 2*iounit+-1, 3*iounit+7 or random up to 5 iounits (seeded content), iounit 128..65512 further limited by the server's msize, both dialects; 2..8 operations per file drawn from Clnt.Read/Write, File.Read/Write/ReadAt/WriteAt/Readn/Written and a full sequential read, offsets at 0, EOF, EOF+1, beyond, iounit multiples -1, counts 0, 1, iounit-1..iounit+1, 2 and 3 iounits; every result is compared with a byte-slice model and, after every write, the model with os.ReadFile. Every 5th run injects OS errors into Ufs (10-80 per mille, at most 5): a call running while an error fired may fail, but what it reports as written must be in the file and nothing else may change. Read offsets include 2^32, 2^32+1, 2^40. Further opens of a file use OREAD, ORDWR, OWRITE|OTRUNC or ORDWR|OTRUNC. Op 'tagread': three consecutive chunks read through the pipelined Tag interface, all in flight.",
 		Real:       ufsReal, Stub: ufsStub,
 		ProbeNames: []string{"read-at-or-past-eof", "read-ending-exactly-at-eof", "write-past-eof", "read-spanning-3+-messages", "readn-spanning-messages", "written-spanning-messages"}})
 }
@@ -127,7 +127,7 @@ func init() {
 
 func init() {
 	reg(&propCfg{ID: "C16", QuickRuns: 2500, QuickSecs: 40, ThoroughRuns: 60000, ThoroughSecs: 780, Chunk: 20,
-		RuleNote:   "C16: random trees of 5..40 entries nested up to 3, 8 or 40 levels (names with spaces, non-ASCII bytes, dots, 255-byte names; files, directories, symlinks incl. dangling ones, hard links). Stratum 'raw-walks': 10..40 walks per run from an existing start point by a name list of which a prefix exists (suffix 'missing', prefix 'missing-first', up to 16 elements), to a new fid or in place; number of qids, error iff the first element is missing, qid type/path against os.Lstat, then Tstat of source fid and new fid decide where they point; stat fields (name, permission bits, DMDIR/DMSYMLINK, length, mtime, qid, symlink target) against os.Lstat; one qid path never names two different files. Stratum 'client-paths': FStat of every object through the client (deep paths split into several Twalks). followed by 2..4 goroutines sharing that client and resolving drawn paths concurrently, every answer compared with os.Lstat.",
+		RuleNote:   "C16: random trees of 5..40 entries nested up to 3, 8 or 40 levels (names with spaces, non-ASCII bytes, dots, 255-byte names; files, directories, symlinks incl. dangling ones, hard links). Stratum 'raw-walks': 10..40 walks per run from an existing start point by a name list of which a prefix exists (suffix 'missing', prefix 'missing-first', up to 16 elements), to a new fid or in place; number of qids, error iff the first element is missing, qid type/path against os.Lstat, then Tstat of source fid and new fid decide where they point; stat fields (name, permission bits, DMDIR/DMSYMLINK, length, mtime, qid, symlink target) against os.Lstat; one qid path never names two different files. Stratum 'client-paths': FStat of every object through the client (deep paths split into several Twalks). followed by 2..4 goroutines sharing that client and resolving drawn paths concurrently, every answer compared with os.Lstat. The client stratum also resolves the root itself (\"/\" and \"\") between the other look-ups.",
 		Real:       ufsReal, Stub: ufsStub,
 		ProbeNames: []string{"partial-walk", "partial-walk-in-place", "walk-first-missing", "client-walk-split-into-several-twalks"}})
 }
@@ -141,14 +141,14 @@ func init() {
 
 func init() {
 	reg(&propCfg{ID: "C18", QuickRuns: 3000, QuickSecs: 40, ThoroughRuns: 60000, ThoroughSecs: 780, Chunk: 20,
-		RuleNote:   "C18: layout outer/{canary.txt, canarydir/inside.txt, root/...} with a further canary above; 6..20 attacking connections per run, each with an attach name, 0..4 walk elements, a create name and a rename target drawn from a grammar over '..', '.', '', '/', absolute paths, '../' chains, elements containing '/', and mixtures with real names, started at the root or at a random depth, followed by stat, open, read / directory read, write, create, rename and remove through whatever fid resulted. Canaries and everything else outside the root (mode, mtime, content, listing) must be unchanged, no qid returned may be that of an object outside the root (inode comparison), no data read may be a canary's, '..' at the root must yield the root's qid. Hostile creates use every kind (file, directory and, in 9P2000.u, symbolic link, hard link, named pipe, device, socket); after an Rcreate the fid is examined with Tstat and a walk to the canary's name. Further steps: a Twstat rename through a fid that designates the root itself (cloned, or reached by 'sub','..'), and Twalk(0->N) + Twalk(N->M by the components of the canary's absolute path) + Tstat(M) written as one segment. The name grammar includes elements with a trailing or embedded '/': '../', './', 'sub/', '..//', '/..', '<real>/'.",
+		RuleNote:   "C18: layout outer/{canary.txt, canarydir/inside.txt, root/...} with a further canary above; 6..20 attacking connections per run, each with an attach name, 0..4 walk elements, a create name and a rename target drawn from a grammar over '..', '.', '', '/', absolute paths, '../' chains, elements containing '/', and mixtures with real names, started at the root or at a random depth, followed by stat, open, read / directory read, write, create, rename and remove through whatever fid resulted. Canaries and everything else outside the root (mode, mtime, content, listing) must be unchanged, no qid returned may be that of an object outside the root (inode comparison), no data read may be a canary's, '..' at the root must yield the root's qid. Hostile creates use every kind (file, directory and, in 9P2000.u, symbolic link, hard link, named pipe, device, socket); after an Rcreate the fid is examined with Tstat and a walk to the canary's name. Further steps: a Twstat rename through a fid that designates the root itself (cloned, or reached by 'sub','..'), and Twalk(0->N) + Twalk(N->M by the components of the canary's absolute path) + Tstat(M) written as one segment. The name grammar includes elements with a trailing or embedded '/': '../', './', 'sub/', '..//', '/..', '<real>/'. The tree holds symbolic links that stay inside it but point towards the root (up -> ., sub/back -> .., sub/deep/top -> ../..), and walks go through them and then '..'. In a fifth of the runs the server's working directory is the tree and it exports \".\".",
 		Real:       ufsReal, Stub: ufsStub,
 		ProbeNames: []string{"dotdot-walk", "attach-refused"}})
 }
 
 func init() {
 	reg(&propCfg{ID: "C20", QuickRuns: 12000, QuickSecs: 40, ThoroughRuns: 300000, ThoroughSecs: 780, Chunk: 50,
-		RuleNote:   "C20: capacities 1, 2, 3, 5, 16, 17, 64; histories of 0, 1, N-1, N, N+1, 2N+1, 3N+2 and 10N entries (at most 400) from 3 owners and types {1,2,4}, in 1..4 batches. Stratum 'sequential': one producer; after each batch the system runs to quiescence and Filter (all, and drawn owner/type filters) is compared exactly with a reference ring of the last N entries. Stratum 'concurrent': 1..4 producers and 1..2 filterers as simulated goroutines; every result must contain only logged matching entries, no duplicates, at most N; per-producer order, real-time order and the order inside all results must be acyclic, no matching entry forced between two returned ones may be missing; after producers finish the exact (1 producer) or size (several) check applies; no Log/Filter call may be blocked at quiescence. (sync/atomic operations in the library are schedule points.)",
+		RuleNote:   "C20: capacities 1, 2, 3, 5, 16, 17, 64; histories of 0, 1, N-1, N, N+1, 2N+1, 3N+2 and 10N entries (at most 400) from 3 owners and types {1,2,4}, in 1..4 batches. Stratum 'sequential': one producer; after each batch the system runs to quiescence and Filter (all, and drawn owner/type filters) is compared exactly with a reference ring of the last N entries. Stratum 'concurrent': 1..4 producers and 1..2 filterers as simulated goroutines; every result must contain only logged matching entries, no duplicates, at most N; per-producer order, real-time order and the order inside all results must be acyclic, no matching entry forced between two returned ones may be missing; after producers finish the exact (1 producer) or size (several) check applies; no Log/Filter call may be blocked at quiescence. (sync/atomic operations in the library are schedule points.) Entry and filter types are drawn from 1..6, so some share bits without being equal.",
 		Real:       []string{"go9p Logger (NewLogger, Log, Filter, doLog goroutine) — instrumented copy of /repo", "Go runtime, channels"},
 		Stub:       []string{"callers: simulated producer and filterer goroutines"},
 		ProbeNames: []string{"ring-wrapped-3+-times"}})
@@ -156,7 +156,7 @@ func init() {
 
 func init() {
 	reg(&propCfg{ID: "C06", QuickRuns: 2400, QuickSecs: 45, ThoroughRuns: 300000, ThoroughSecs: 780, Chunk: 40,
-		RuleNote:   "C06: six strata (scripted implementation | Ufs on a scratch tree) x (grammar | byte mutation | raw bytes). A hostile raw peer optionally negotiates (msize 24..70000) and binds fids in several states (attached, walked, opened directory and file), then sends 5..30 frames: every message type (T and R codes) with boundary and random field values (NOFID, NOTAG, 0, max, 2^31, 2^63, 2^64-1), names '', '.', '..', 'a/b', '/', 255, 4000 and 65000 bytes, walks of 16, 17 and 300 elements, counts around msize and 2^32, directory reads at arbitrary offsets, second Tversion mid-session; or valid requests with flipped / inserted / deleted / truncated bytes and edited size fields; or random bytes. A bystander connection issues Tstat throughout and a fresh connection is opened afterwards. Every other Ufs run additionally injects OS errors (20-200 per mille, at most 12) into the os / syscall calls of Ufs. Oracle: no goroutine of the simulated process panics; bystander and later connection are served; allocation stays bounded.",
+		RuleNote:   "C06: six strata (scripted implementation | Ufs on a scratch tree) x (grammar | byte mutation | raw bytes). A hostile raw peer optionally negotiates (msize 24..70000) and binds fids in several states (attached, walked, opened directory and file), then sends 5..30 frames: every message type (T and R codes) with boundary and random field values (NOFID, NOTAG, 0, max, 2^31, 2^63, 2^64-1), names '', '.', '..', 'a/b', '/', 255, 4000 and 65000 bytes, walks of 16, 17 and 300 elements, counts around msize and 2^32, directory reads at arbitrary offsets, second Tversion mid-session; or valid requests with flipped / inserted / deleted / truncated bytes and edited size fields; or random bytes. A bystander connection issues Tstat throughout and a fresh connection is opened afterwards. Every other Ufs run additionally injects OS errors (20-200 per mille, at most 12) into the os / syscall calls of Ufs. Oracle: no goroutine of the simulated process panics; bystander and later connection are served; allocation stays bounded. Two of every 40 runs are directed Ufs sessions: 1100 Tattach with distinct numeric users followed by stats of objects owned by yet other users; a directory listed through a fid, then emptied and refilled with fewer, longer names, a refused too-small read at offset 0 and a read at the old end offset.",
 		Real:       append(append([]string{}, srvReal...), "go9p Ufs on a scratch tree (ufs strata)"),
 		Stub:       srvStub,
 		ProbeNames: []string{"hostile-connection-dropped-by-server", "bystander-worked-throughout", "grammar-Tread", "grammar-Twalk", "grammar-Twstat", "grammar-Tcreate", "grammar-Rread"}})
